@@ -13,9 +13,28 @@ haystack byte, `soff`/`eoff` the offsets of `start`/`end` from it (`soff` may be
 non consuming), or `-` for no operation; the answer lists one result per operation, comma
 separated: `none`/`<idx>` for `n`/`b`, `<lo>:<hi>` for `s`, `<k>` for `c`.
 `<arch>` is `x86_64|aarch64|wasm32simd128|other`; flags are `0|1`.
+
+  conc <backend> <threads> <seed> <calls>
+
+exercises the executable `unsafe_ifunc!` cell model (`Model/Concurrency.lean`): an LCG seeded
+with `<seed>` draws, for each of the threads `0..threads-1`, `<calls>` find/rfind calls
+(haystack of length 0..80 over the alphabet `61..64`, 1-3 needle bytes from `61..65`, base
+address `1000..1063`, mostly the whole haystack as window, sometimes an arbitrary (possibly
+reversed) sub-window) and a schedule of `3 * threads * calls` steps `(thread, load choice)`
+with the load choice drawn among the values stored in `FN` so far; if calls are still pending
+the schedule is extended round-robin with load choice 0. `Concurrency.runSchedule` is run
+for the forward cell and again (same calls, same schedule) for the reverse cell, with a `Cfg`
+whose `select` is `<backend>`. The answer is `ok <k> steps=0 loads=-` where `k` = number of
+completed calls whose outcome is not `ok (specFind ..)`, plus the number of calls that did not
+complete (`k = 0` by `Concurrency.C15_find`).
+For `avx2|sse2|swar` the `Cfg` is an `x86_64` one (`x86Detect cfg = <backend>`). `neon` and
+`simd128` are chosen at compile time in the source (`defraw!`, no `FN` cell, no shared state):
+for them every call of the same queues runs `memchrRaw cfg` directly.
 -/
 import MemchrModel.Driver.Util
+import MemchrModel.Spec.Byte
 import MemchrModel.Model.MemchrApi
+import MemchrModel.Model.Concurrency
 
 namespace Memchr.Driver
 
@@ -74,6 +93,118 @@ def parseCfg (arch sse2 avx2 neon std cpu : String) (force : Force) : Option Cfg
   pure { arch := arch, ctSse2 := sse2, ctAvx2 := avx2, ctNeon := neon, std := std,
          cpuAvx2 := cpu, force := force }
 
+/-! ### `conc` -/
+
+open Memchr.Concurrency in
+/-- a `Cfg` with `select cfg = b` -/
+def cfgOfBackend : Backend → Cfg
+  | .avx2 => { arch := .x86_64, ctSse2 := true, ctAvx2 := true, ctNeon := false, std := true, cpuAvx2 := true }
+  | .sse2 => { arch := .x86_64, ctSse2 := true, ctAvx2 := false, ctNeon := false, std := true, cpuAvx2 := false }
+  | .swar => { arch := .x86_64, ctSse2 := false, ctAvx2 := false, ctNeon := false, std := true, cpuAvx2 := false }
+  | .neon => { arch := .aarch64, ctSse2 := false, ctAvx2 := false, ctNeon := true, std := true, cpuAvx2 := false }
+  | .simd128 => { arch := .wasm32simd128, ctSse2 := false, ctAvx2 := false, ctNeon := false, std := true, cpuAvx2 := false }
+
+/-- 64-bit LCG (Knuth's MMIX constants) -/
+def lcgNext (s : Nat) : Nat := (s * 6364136223846793005 + 1442695040888963407) % 2 ^ 64
+
+/-- a number `< n` (0 when `n = 0`) from the high bits, and the next state -/
+def lcgDraw (s n : Nat) : Nat × Nat :=
+  let s' := lcgNext s
+  ((s' / 2 ^ 33) % n, s')
+
+def lcgBytes (lo span : Nat) : Nat → Nat → List UInt8 × Nat
+  | 0, s => ([], s)
+  | k + 1, s =>
+    let (x, s) := lcgDraw s span
+    let (rest, s) := lcgBytes lo span k s
+    (UInt8.ofNat (lo + x) :: rest, s)
+
+open Memchr.Concurrency in
+def genCall (s : Nat) : FindArgs × Nat :=
+  let (len, s) := lcgDraw s 81
+  let (hay, s) := lcgBytes 0x61 4 len s
+  let (nn, s) := lcgDraw s 3
+  let (nb, s) := lcgBytes 0x61 5 (nn + 1) s
+  let ns : Needles := match nb with
+    | a :: rest => ⟨a, rest⟩
+    | [] => ⟨0x61, []⟩
+  let (boff, s) := lcgDraw s 64
+  let base := 1000 + boff
+  let m : Mem := { region := 0, base := base, bytes := hay.toArray }
+  let (sub, s) := lcgDraw s 4
+  if sub == 0 then
+    let (so, s) := lcgDraw s (len + 1)
+    let (eo, s) := lcgDraw s (len + 1)
+    (⟨ns, m, base + so, base + eo⟩, s)
+  else (⟨ns, m, base, base + len⟩, s)
+
+open Memchr.Concurrency in
+def genCalls : Nat → Nat → List FindArgs × Nat
+  | 0, s => ([], s)
+  | k + 1, s =>
+    let (a, s) := genCall s
+    let (rest, s) := genCalls k s
+    (a :: rest, s)
+
+open Memchr.Concurrency in
+def genQueues : Nat → Nat → Nat → List (List FindArgs) × Nat
+  | 0, _, s => ([], s)
+  | t + 1, calls, s =>
+    let (q, s) := genCalls calls s
+    let (rest, s) := genQueues t calls s
+    (q :: rest, s)
+
+open Memchr.Concurrency in
+/-- `k` random steps; the load choice is drawn among the values stored so far (the store
+history does not depend on the direction of the search, so the schedule generated against the
+forward cell is reused for the reverse one) -/
+def genSchedule (cfg : Cfg) (threads : Nat) :
+    Nat → State FindArgs (Option Nat) → Nat → Schedule × State FindArgs (Option Nat)
+  | 0, st, _ => ([], st)
+  | k + 1, st, s =>
+    let (tid, s) := lcgDraw s threads
+    let (idx, s) := lcgDraw s st.stored.length
+    let (rest, st') := genSchedule cfg threads k (step (findIfunc false) cfg st tid idx) s
+    ((tid, idx) :: rest, st')
+
+/-- `rounds` round-robin rounds over the threads, load choice 0 -/
+def roundRobin (threads rounds : Nat) : Concurrency.Schedule :=
+  (List.range rounds).flatMap (fun _ => (List.range threads).map (fun t => (t, 0)))
+
+/-- address of the first / last needle byte of the window (`Api.specFind` of
+`Proofs/MemchrApi.lean`, restated here because driver files import no proof file) -/
+def specFindD (ns : Needles) (rev : Bool) (m : Mem) (start end_ : Nat) : Option Nat :=
+  let w := m.window start (end_ - start)
+  (if rev then Spec.lastIdx ns.confirm w else Spec.firstIdx ns.confirm w).map (start + ·)
+
+open Memchr.Concurrency in
+def badResults (rev : Bool) (rs : List (Nat × FindArgs × Res (Option Nat))) : Nat :=
+  (rs.filter (fun r =>
+    r.2.2.val? != some (specFindD r.2.1.ns rev r.2.1.m r.2.1.start r.2.1.end_))).length
+
+open Memchr.Concurrency in
+def runConc (b : Backend) (threads seed calls : Nat) : Nat :=
+  let cfg := cfgOfBackend b
+  let (qs, s) := genQueues threads calls seed
+  let qa := qs.toArray
+  let queue : Nat → List FindArgs := fun t => qa.getD t []
+  let total := threads * calls
+  match b with
+  | .neon | .simd128 =>
+    -- compile-time choice: no cell; every call runs `memchr_raw` directly
+    let all := qs.flatten
+    let run (rev : Bool) : Nat :=
+      badResults rev (all.map (fun a => (0, a, memchrRaw cfg a.ns rev a.m a.start a.end_ {})))
+    run false + run true
+  | _ =>
+    let (sched, st) := genSchedule cfg threads (3 * total) (init queue) s
+    let done := (List.range threads).all (fun t => (st.queue t).isEmpty)
+    let sched := if done then sched else sched ++ roundRobin threads (2 * calls)
+    let run (rev : Bool) : Nat :=
+      let fin := runSchedule (findIfunc rev) cfg (init queue) sched
+      badResults rev fin.results + (total - fin.results.length)
+    run false + run true
+
 def handleMemchrApi (op : String) (args : List String) : Option String :=
   match op, args with
   | "memchr", [b, ns, dir, base, soff, eoff, hay] => do
@@ -112,6 +243,12 @@ def handleMemchrApi (op : String) (args : List String) : Option String :=
   | "select", [arch, sse2, avx2, neon, std, cpu, force] => do
     let cfg ← parseCfg arch sse2 avx2 neon std cpu (← parseForce force)
     some s!"ok {(select cfg).name}"
+  | "conc", [b, threads, seed, calls] => do
+    let b ← Backend.ofName? b
+    let threads ← threads.toNat?
+    let seed ← seed.toNat?
+    let calls ← calls.toNat?
+    some s!"ok {runConc b threads seed calls} steps=0 loads=-"
   | _, _ => none
 
 end Memchr.Driver
